@@ -5,11 +5,13 @@ package main
 
 import (
 	"context"
+	"encoding/json"
 	"fmt"
 	"os"
 	"path/filepath"
 	"strings"
 	"sync"
+	"sync/atomic"
 	"time"
 
 	"github.com/logrange/logrange/api"
@@ -44,9 +46,167 @@ func (f *failFirstWrite) Write(ctx context.Context, tags, fields string, evs []*
 	return f.Client.Write(ctx, tags, fields, evs, res)
 }
 
+// procStorage is a slow disk behind a process boundary: a write takes `delay`, and a write that completes after the
+// process is gone (collector.Run has returned: cmd/lr exits there) never reaches the disk.
+type procStorage struct {
+	*memStorage
+	delay time.Duration
+	dead  int32
+	late  int32
+}
+
+func (p *procStorage) WriteData(key string, val []byte) error {
+	time.Sleep(p.delay)
+	if atomic.LoadInt32(&p.dead) != 0 {
+		atomic.AddInt32(&p.late, 1)
+		return nil
+	}
+	return p.memStorage.WriteData(key, val)
+}
+
+// ackClient forwards to the real client and records the messages of every acknowledged write; the writes with the
+// numbers in failAt (1-based) are answered with a transport error without reaching the server.
+type ackClient struct {
+	api.Client
+	mu     sync.Mutex
+	calls  int
+	failAt map[int]bool
+	acked  []string
+	failed chan struct{} // closed at the first injected failure
+}
+
+func (a *ackClient) Write(ctx context.Context, tags, fields string, evs []*api.LogEvent, res *api.WriteResult) error {
+	a.mu.Lock()
+	a.calls++
+	fail := a.failAt[a.calls]
+	a.mu.Unlock()
+	if fail {
+		if a.failed != nil {
+			select {
+			case <-a.failed:
+			default:
+				close(a.failed)
+			}
+		}
+		return fmt.Errorf("injected transport error")
+	}
+	err := a.Client.Write(ctx, tags, fields, evs, res)
+	if err == nil && (res == nil || res.Err == nil) {
+		a.mu.Lock()
+		for _, e := range evs {
+			a.acked = append(a.acked, e.Message)
+		}
+		a.mu.Unlock()
+	}
+	return err
+}
+
+func (a *ackClient) ackedCopy() []string {
+	a.mu.Lock()
+	defer a.mu.Unlock()
+	return append([]string{}, a.acked...)
+}
+
+// collectorStopCase: two lives of the real collector.Run on one file and one "disk". Life 1 ends with a graceful stop
+// (the context is cancelled) either while the collector is idle (everything shipped and confirmed, it waits in its
+// select) or while it is busy (inside the 5 s retry pause after a failed write); when Run has returned the process is
+// gone. SPEC: the disk then holds exactly the end of the confirmed bytes, and life 2 ships the rest of the file — and
+// nothing else — once, in order.
+func collectorStopCase(srv *lrsrv.Srv, sec *vh.Section, name string) {
+	dir := lrsrv.NewDir()
+	defer os.RemoveAll(dir)
+	fn := filepath.Join(dir, name+".log")
+	lines := []string{"one\n", "two\n", "three\n", "four\n", "five\n"}
+	content := strings.Join(lines, "")
+	os.WriteFile(fn, []byte(content), 0644)
+	var clock int64
+	st := &procStorage{memStorage: newMemStorage(&clock), delay: 300 * time.Millisecond}
+	busy := name == "busy-stop"
+	tagv := "c17" + strings.Replace(name, "-", "", -1)
+	input := map[string]interface{}{"section": "collector", "case": name}
+	fail := func(kind, impl, spec, what string) {
+		res.SpecFail(vh.SpecFailure{Section: "collector", Kind: kind, Input: input, Impl: impl, Spec: spec, What: what})
+	}
+	life := func(cl *ackClient, until func() bool, maxWait time.Duration, idle time.Duration) bool {
+		cfg := scanCfg(fn, "pure", 2, 1, 3600)
+		cfg.Schemas[0].Meta.Tags = map[string]string{"src": tagv}
+		ctx, cancel := context.WithCancel(context.Background())
+		defer cancel()
+		done := make(chan error, 1)
+		atomic.StoreInt32(&st.dead, 0)
+		go func() { done <- collector.Run(ctx, cfg, cl, st) }()
+		dl := time.Now().Add(maxWait)
+		for !until() && time.Now().Before(dl) {
+			time.Sleep(20 * time.Millisecond)
+		}
+		reached := until()
+		time.Sleep(idle)
+		cancel()
+		select {
+		case <-done:
+		case <-time.After(150 * time.Second):
+			fail("hang", "collector.Run did not return 150 s after the cancel", "returns", "a graceful stop must end")
+			return false
+		}
+		atomic.StoreInt32(&st.dead, 1) // the process is gone
+		return reached
+	}
+	// life 1
+	cl1 := &ackClient{Client: srv.Client, failAt: map[int]bool{}, failed: make(chan struct{})}
+	var confirmedEnd int64
+	var reached bool
+	if busy {
+		// the second event's writes fail: the stop arrives inside the retry pause; the first event (2 lines) is confirmed
+		for i := 2; i < 40; i++ {
+			cl1.failAt[i] = true
+		}
+		reached = life(cl1, func() bool {
+			select {
+			case <-cl1.failed:
+				return true
+			default:
+				return false
+			}
+		}, 60*time.Second, 1500*time.Millisecond)
+		confirmedEnd = int64(len(lines[0]) + len(lines[1]))
+	} else {
+		reached = life(cl1, func() bool { return len(cl1.ackedCopy()) >= len(lines) }, 60*time.Second, 2500*time.Millisecond)
+		confirmedEnd = int64(len(content))
+	}
+	res.Eval(sec, name)
+	if !reached {
+		res.Note("collector/%s: life 1 did not reach its stop point (acked %d) — schedule not reached", name, len(cl1.ackedCopy()))
+		return
+	}
+	acked1 := cl1.ackedCopy()
+	off, ok := st.current(fn)
+	res.Dist(sec, fmt.Sprintf("%s:late-writes=%d", name, atomic.LoadInt32(&st.late)))
+	if !ok || off != confirmedEnd {
+		fail("graceful-stop-final-save-lost",
+			fmt.Sprintf("when collector.Run returned the storage held offset %d (present=%v) for the file; %d record(s) confirmed; %d save(s) completed only after Run had returned", off, ok, len(acked1), atomic.LoadInt32(&st.late)),
+			fmt.Sprintf("offset %d = end of the confirmed records", confirmedEnd),
+			"graceful stop ("+name+"): collector.Run returns to cmd/lr, which exits; the final save of the offsets must be complete by then, otherwise the restart re-sends confirmed bytes")
+	}
+	// life 2: same disk, a client that accepts everything
+	cl2 := &ackClient{Client: srv.Client, failAt: map[int]bool{}}
+	want2 := lines[len(acked1):]
+	mw := 20 * time.Second
+	if len(want2) == 0 {
+		mw = 0
+	}
+	life(cl2, func() bool { return len(want2) > 0 && len(cl2.ackedCopy()) >= len(want2) }, mw, 3*time.Second)
+	acked2 := cl2.ackedCopy()
+	if strings.Join(acked1, "") != strings.Join(lines[:len(acked1)], "") || strings.Join(acked2, "") != strings.Join(want2, "") {
+		fail("confirmed-bytes-resent-or-skipped-after-collector-stop",
+			fmt.Sprintf("life 1 acknowledged %q, life 2 acknowledged %q", acked1, acked2),
+			fmt.Sprintf("life 2 ships exactly %q", want2),
+			"graceful stop ("+name+") and restart of collector.Run on the same storage: neither re-send a confirmed byte nor skip one")
+	}
+}
+
 func sectionCollector() {
 	sec := res.Section("collector", "spec-search",
-		"the real client/collector.Run on a real file (5 lines, 2 records per event), the real rpc client and the real in-process server; the first write is made to fail on the server (a tag line it cannot parse, through the real client and the collector's own re-used WriteResult), every later write goes through; the collector sleeps its real 5 s and retries. SPEC: 11 s later the partition holds exactly the file's lines, each once, in order. non-trivial = the one schedule")
+		"the real client/collector.Run on real files (5 lines, 2 records per event), the real rpc client and the real in-process server. (a) the first write is made to fail on the server (a tag line it cannot parse, through the real client and the collector's own re-used WriteResult), every later write goes through; the collector sleeps its real 5 s and retries. SPEC: 11 s later the partition holds exactly the file's lines, each once, in order. (b) idle-stop / busy-stop: a graceful stop while the collector waits for an event / pauses after a failed write, on a slow disk (300 ms per save) behind a process boundary (saves that complete after Run has returned are lost), then a second life on the same disk. SPEC: when Run returns the disk holds the end of the confirmed bytes; the second life ships the rest, once. non-trivial = the three schedules")
 	defer res.Done(sec)
 	dir := lrsrv.NewDir()
 	defer os.RemoveAll(dir)
@@ -56,6 +216,40 @@ func sectionCollector() {
 		return
 	}
 	defer srv.Stop()
+	var wg sync.WaitGroup
+	for _, name := range []string{"idle-stop", "busy-stop"} {
+		wg.Add(1)
+		go func(name string) { defer wg.Done(); collectorStopCase(srv, sec, name) }(name)
+	}
+	defer wg.Wait()
+	collectorWriteFailure(srv, sec, dir)
+}
+
+// replayCollector re-runs one of the stop schedules
+func replayCollector(raw json.RawMessage) {
+	var in struct {
+		Case string `json:"case"`
+	}
+	json.Unmarshal(raw, &in)
+	sec := res.Section("collector", "spec-search", "replay of one collector schedule")
+	defer res.Done(sec)
+	dir := lrsrv.NewDir()
+	defer os.RemoveAll(dir)
+	srv, err := lrsrv.Start(filepath.Join(dir, "srv"), lrsrv.Opts{})
+	if err != nil {
+		res.Note("collector: %v", err)
+		return
+	}
+	defer srv.Stop()
+	switch in.Case {
+	case "idle-stop", "busy-stop":
+		collectorStopCase(srv, sec, in.Case)
+	default:
+		collectorWriteFailure(srv, sec, dir)
+	}
+}
+
+func collectorWriteFailure(srv *lrsrv.Srv, sec *vh.Section, dir string) {
 	fn := filepath.Join(dir, "app.log")
 	lines := []string{"alpha", "beta", "gamma", "delta", "epsilon"}
 	os.WriteFile(fn, []byte(strings.Join(lines, "\n")+"\n"), 0644)
